@@ -275,6 +275,18 @@ Definition mon_base (m : mst) (o : op) (out : list obs) : mst * verdict :=
                 m_subs := filter (fun x : N * N => negb (N.eqb (fst x) p)) (m_subs m);
                 m_thr := m_thr m; m_rds := m_rds m |} out OkDone
   | During _ _ _ _ => expect m out BadBurst
+  | SetDescr e fid d =>
+      (* the application changed the description of an existing feature: every later announcement of it
+         (reply, "added" notification) must carry the new text *)
+      match assoc_N e (m_objs m) with
+      | None => expect m out NoEntity
+      | Some o =>
+          match find_id fid (e_feats o) with
+          | None => expect m out NoFeature
+          | Some _ =>
+              expect (set_mobjs m (upd_feats e (feats_upd_id fid (fun f => with_desc f (N.succ d))) (m_objs m)) (m_ids m)) out OkDone
+          end
+      end
   end.
 
 (* the calls of a burst, one observation each *)
